@@ -1,7 +1,8 @@
 SPECIFICATION Spec
 CONSTANTS
   Rich = FALSE
+  KeepParams = FALSE
   LengthFastPath = FALSE
   StrictIdText = TRUE
-INVARIANTS RoundTripLaw CanonicalDERLaw EqualIffEncodingEqualLaw NonCanonicalLaw IdRoundTripLaw OrderPreservingLaw RejectInvalidLaw Dump
+INVARIANTS RoundTripLaw CanonicalDERLaw EqualIffEncodingEqualLaw NonCanonicalLaw WireCanonicalLaw IdRoundTripLaw OrderPreservingLaw RejectInvalidLaw Dump
 CHECK_DEADLOCK FALSE
